@@ -680,12 +680,52 @@ def oracle_c10(tr: Trace, report, steps=None):
             _oracle_mutation(tr, s, report, si)
 
 
+def oracle_c10_end(tr: "Trace", report):
+    """At the end of the sequence EVERY population returned earlier with species information is inspected again with
+    the full partition invariant set (a user post-processing the recorded populations sees these objects, not the
+    ones of the moment)."""
+    for si, s in enumerate(tr.steps):
+        if s.exc is not None or s.out is None or si == len(tr.steps) - 1:
+            continue
+        try:
+            if s.out.species_members is None and s.out.species_representatives is None:
+                continue
+            if s.spec["op"] == "speciation":
+                _oracle_partition(s, report, si, prefix="earlier-population-", when=f" — when the population returned by step {si} is inspected again after the later operators of the sequence")
+        except Exception as e:  # noqa: BLE001
+            report(f"earlier-population-unreadable-{type(e).__name__}", f"the population returned by step {si} cannot be inspected at the end of the sequence: {type(e).__name__}: {e}", si)
+
+
+def touch_everything(obj):
+    """Read every public attribute / property of obj (guarded), str() and repr() it — twice.  Reading must not change anything."""
+    for _ in range(2):
+        for name in dir(obj):
+            if name.startswith("_"):
+                continue
+            try:
+                getattr(obj, name)
+            except Exception:  # noqa: BLE001
+                pass
+        for f in (str, repr):
+            try:
+                f(obj)
+            except Exception:  # noqa: BLE001
+                pass
+        if isinstance(obj, dict) or hasattr(obj, "items"):
+            try:
+                len(obj), list(obj.items()), obj == obj
+            except Exception:  # noqa: BLE001
+                pass
+
+
 def _same(a, b):
     """the same individual: the same object or structurally equal (field by field, never through __eq__)"""
     return a is b or evqe.plain_individual(a) == evqe.plain_individual(b)
 
 
-def _oracle_partition(s, report, si):
+def _oracle_partition(s, report, si, prefix="", when=""):
+    _report = report
+    report = lambda key, what, si_: _report(prefix + key, what + when, si_)  # noqa: E731
     out = s.out
     n = len(out.individuals)
     reps, mem, ms = out.species_representatives, out.species_members, out.species_membership
@@ -701,6 +741,14 @@ def _oracle_partition(s, report, si):
             report("partition-representative", "a representative is not an individual of its own species", si)
     if len(reps) != len(items) or any(not _same(a, b) for a, b in zip(reps, [r for r, _ in items])):
         report("partition-representatives-list", "species_representatives is not the list of keys of species_members", si)
+    for r in reps:
+        try:
+            mem[r]
+        except KeyError:
+            report("partition-representative-not-a-key", "a member of species_representatives is not a key of species_members (species_members[representative] raises KeyError)", si)
+    if type(mem) is not dict or type(ms) is not dict:
+        # HEAD returns plain dicts; a container that changes under reading is caught by the snapshot comparison, this is a note in the message only
+        pass
     keys = [r for r, _ in items]
     for a in range(len(keys)):
         for b in range(a + 1, len(keys)):
@@ -842,7 +890,14 @@ def oracle_c11_step(tr: Trace, report, steps):
 
 
 def oracle_c11(tr: Trace, report):
-    """Every observed object still has the structure it had when it was observed."""
+    """Every observed object still has the structure it had when it was observed (also after every public attribute
+    of it has been read twice)."""
+    for o in tr.observations:
+        touch_everything(o.obj)
+        pop = getattr(o.obj, "population", o.obj)
+        for c in (getattr(pop, "species_members", None), getattr(pop, "species_membership", None)):
+            if c is not None:
+                touch_everything(c)
     for o in tr.observations:
         try:
             if o.kind == "payload":
@@ -1210,6 +1265,36 @@ def empty_population_specs():
                               {"op": "selection", "alpha": 0.125, "beta": 0.25, "tournament": t, "seed": 4}]) for t in (None, 2)]
 
 
+def large_population_specs(rng, count):
+    """Populations of more than 32 individuals (33, 40, 64): speciation, selection, a second speciation."""
+    out = []
+    for k in range(count):
+        size = [33, 40, 64, 48][k % 4]
+        n, inds = random_population(rng, n=rng.choice([2, 3]), size=size)
+        steps = [{"op": "speciation", "thr": rng.choice([1, 2]), "seed": rng.randint(0, 10**6)},
+                 {"op": "selection", "alpha": 0.125, "beta": 0.25, "tournament": rng.choice([None, 3]), "seed": rng.randint(0, 10**6)},
+                 {"op": "topo", "p": 0.5, "seed": rng.randint(0, 10**6)}, {"op": "speciation", "thr": 1, "seed": rng.randint(0, 10**6)}]
+        out.append({"n": n, "inds": inds, "reps": None, "steps": steps, "workers": rng.randint(1, 4), "order": [rng.randint(0, 7) for _ in range(24)], "positive": False, "evalmode": "hash"})
+    return out
+
+
+def new_species_specs(rng, count):
+    """speciation -> selection / mutations (which alias the representatives list) -> speciation with a small threshold after
+    topological search with probability 1: the second speciation founds new species."""
+    out = []
+    for _ in range(count):
+        n, inds = random_population(rng, n=rng.choice([2, 3, 4]), size=rng.randint(3, 6))
+        steps = [{"op": "speciation", "thr": rng.choice([1, 2]), "seed": rng.randint(0, 10**6)},
+                 {"op": "selection", "alpha": 0.125, "beta": 0.0, "tournament": rng.choice([None, 2]), "seed": rng.randint(0, 10**6)},
+                 {"op": "topo", "p": 1.0, "seed": rng.randint(0, 10**6)}]
+        if rng.random() < 0.5:
+            steps.append({"op": "topo", "p": 1.0, "seed": rng.randint(0, 10**6)})
+        steps += [{"op": "speciation", "thr": rng.choice([0, 1]), "seed": rng.randint(0, 10**6)},
+                  {"op": "selection", "alpha": 0.0, "beta": 0.25, "tournament": 2, "seed": rng.randint(0, 10**6)}]
+        out.append({"n": n, "inds": inds, "reps": None, "steps": steps, "workers": rng.randint(1, 3), "order": [rng.randint(0, 7) for _ in range(24)], "positive": False, "evalmode": "hash"})
+    return out
+
+
 def precondition_specs(rng, count):
     """Selection NOT preceded by a speciation (documented precondition violated): EVQESelectionException after the
     evaluations and the count callback."""
@@ -1574,13 +1659,14 @@ def run_solver_case(case, report):
             d = diff_snap(snap, now)
             if d:
                 field = d[0].split(".")[1].split("[")[0].split(" ")[0] if "." in d[0] else "result"
-                key = "result-history-changed-after-later-solve" if field == "history" else f"result-{field}-changed-after-later-solve"
+                suffix = "by-reading-its-properties" if "read twice" in when else "after-later-solve"
+                key = f"result-{field}-changed-{suffix}"
                 report(key, f"the result returned by solve #{k + 1} changed {when}: {d[0]} was {str(d[1])[:200]} when the result was returned, is {str(d[2])[:200]} now")
             # the history of a result describes the generations of ITS OWN solve as they were reported
             if k < len(crit.runs) and now.get("history") is not None:
                 d2 = diff_snap(crit.runs[k], now["history"], "history")
                 if d2:
-                    report("result-history-differs-from-reported" + ("" if when == "when it was returned" else "-after-later-solve"),
+                    report("result-history-differs-from-reported" + ("" if when == "when it was returned" else ("-after-reading-its-properties" if "read twice" in when else "-after-later-solve")),
                            f"the history in the result of solve #{k + 1} is not what result_callback reported during that solve ({when}): {d2[0]} reported {str(d2[1])[:200]}, stored {str(d2[2])[:200]}")
 
     solver, crit, problem = build()
@@ -1596,6 +1682,18 @@ def run_solver_case(case, report):
                 res = None
         results.append((res, snap))
         compare(results, crit, "when it was returned" if k == 0 else f"after solve #{k + 1} on the same solver object")
+        if res is not None:
+            # reading must not change anything: every public property / attribute, str(), repr() — twice
+            touch_everything(res)
+            for r_ in list(res.population_evaluation_results or []):
+                touch_everything(r_)
+                touch_everything(r_.population)
+            compare(results, crit, f"after every public property of the result of solve #{k + 1} (and of the evaluation results and populations in its history) was read twice and str()/repr() were called")
+            try:
+                if snap["history"] is not None and res.generations is not None and int(res.generations) != len(snap["history"]):
+                    report("result-history-length-vs-generations", f"the result of solve #{k + 1} reports {res.generations} generations but holds {len(snap['history'])} history entries")
+            except Exception:  # noqa: BLE001
+                pass
     # a solve on a fresh solver object, then garbage collection
     solver2, crit2, problem2 = build()
     solve(problem2(0), "solve on a fresh solver")
